@@ -29,11 +29,21 @@ type cfg struct {
 	ChildGroup bool
 	ChildPct   int64 // allocation_percentage instead of an own fixed window (0 = own)
 	BothLimit  bool  // requests to the child URL pass the child's AND the parent's limiter
+	// Custom: P is a fixed_window_custom_counter quota (a request costs the number of units in
+	// its x-cost header; max is in units)
+	Custom bool
 }
 
 func quotaYAML(c cfg) string {
 	var sb strings.Builder
-	fmt.Fprintf(&sb, "quotas:\n  - id: P\n    filter:\n      url: h.com/*\n    strategy:\n      fixed_window:\n        max: %d\n        interval: %d\n        interval_unit: second\n", c.Max, c.W)
+	kind := "fixed_window"
+	if c.Custom {
+		kind = "fixed_window_custom_counter"
+	}
+	fmt.Fprintf(&sb, "quotas:\n  - id: P\n    filter:\n      url: h.com/*\n    strategy:\n      %s:\n        max: %d\n        interval: %d\n        interval_unit: second\n", kind, c.Max, c.W)
+	if c.Custom {
+		sb.WriteString("        counter_value_path: $.request.headers[\"x-cost\"]\n")
+	}
 	if c.Group {
 		sb.WriteString("        group_by_header: x-g\n")
 	}
@@ -120,6 +130,7 @@ type event struct {
 	tick   time.Duration
 	group  string // "a", "b", "" (header absent)
 	target string // "c" child URL, "p" parent-only URL
+	cost   int64  // custom-counter configurations: units this request costs (0 = plain request)
 }
 
 func (e event) String() string {
@@ -129,6 +140,9 @@ func (e event) String() string {
 	g := e.group
 	if g == "" {
 		g = "-"
+	}
+	if e.cost > 0 {
+		return fmt.Sprintf("req(%s,%s,cost=%d)", e.target, g, e.cost)
 	}
 	return fmt.Sprintf("req(%s,%s)", e.target, g)
 }
@@ -145,6 +159,11 @@ func alphabet(c cfg) []event {
 	}
 	for _, t := range targets {
 		for _, g := range groups {
+			if c.Custom {
+				// unit cost, and a request that alone costs more than the whole window
+				ev = append(ev, event{group: g, target: t, cost: 1}, event{group: g, target: t, cost: c.Max + 1})
+				continue
+			}
 			ev = append(ev, event{group: g, target: t})
 		}
 	}
@@ -182,18 +201,28 @@ func newModel(c cfg) *model {
 func (m *model) close() { eng.Remove(m.root) }
 
 func (m *model) charge(key string, max int64, now time.Time) bool {
+	return m.chargeN(key, max, now, 1)
+}
+
+func (m *model) chargeN(key string, max int64, now time.Time, cost int64) bool {
 	w := m.wins[key]
 	if w == nil {
 		w = &win{}
 		m.wins[key] = w
 	}
 	if !w.open || now.Sub(w.start) >= time.Duration(m.c.W)*time.Second {
+		if cost > max {
+			// a request that can never fit is refused without opening a window (the statement
+			// does not say which instant anchors a window; this is what the engine does)
+			w.open = false
+			return false
+		}
 		w.open, w.start, w.count, w.admitted = true, now, 0, 0
 	}
-	if w.count >= max {
+	if w.count+cost > max {
 		return false
 	}
-	w.count++
+	w.count += cost
 	return true
 }
 
@@ -215,6 +244,11 @@ func (m *model) Apply(ei int) string {
 	hs := map[string]string{}
 	if e.group != "" {
 		hs["x-g"] = e.group
+	}
+	cost := int64(1)
+	if e.cost > 0 {
+		cost = e.cost
+		hs["x-cost"] = fmt.Sprint(e.cost)
 	}
 	url := "h.com/p/1"
 	if e.target == "c" {
@@ -253,7 +287,7 @@ func (m *model) Apply(ei int) string {
 	}
 	if okAll {
 		keys = append(keys, pKey)
-		if !m.charge(pKey, m.c.Max, now) {
+		if !m.chargeN(pKey, m.c.Max, now, cost) {
 			okAll = false
 		}
 	}
@@ -273,7 +307,7 @@ func (m *model) Apply(ei int) string {
 	if !refused {
 		for _, k := range keys {
 			w := m.wins[k]
-			w.admitted++
+			w.admitted += cost
 			max := m.c.Max
 			if strings.HasPrefix(k, "C_") {
 				max = m.childMax()
@@ -310,6 +344,7 @@ func configs(thorough bool) []cfg {
 		{Name: "ungrouped parent max2 + grouped child max1", Max: 2, W: 2, Child: true, ChildMax: 1, ChildGroup: true},
 		{Name: "parent max4 + child 50%", Max: 4, W: 2, Child: true, ChildPct: 50},
 		{Name: "parent max2 + child max1, both limiters on child URL", Max: 2, W: 2, Child: true, ChildMax: 1, BothLimit: true},
+		{Name: "custom counter max2 W2 (costs 1 and 3)", Max: 2, W: 2, Custom: true},
 	}
 	if thorough {
 		cs = append(cs, cfg{Name: "flat max2 W3", Max: 2, W: 3},
